@@ -88,7 +88,7 @@ def expectedLifecycle : List (String × List String) :=
 /-- **MetaPool** — `_handle_request` of both servers: init gating on the reader thread, everything else of the Metadata server
     wrapped in `execute_and_reply` and submitted to the pool (`Conc/Pool.lean`), SUB/USB handed to the subscription manager. -/
 def expectedMetaPool : List (String × List String) :=
- [("MetadataProviderServer._handle_request", ["R self.init_expected", "IF _ and (not self.init_expected)", "C RemotingException", "RAISE", "END", "R self.init_expected", "IF not _ and self.init_expected", "C RemotingException", "RAISE", "END", "IF _", "W self.init_expected", "C self._on_mpi", "C self._send_reply", "RETURN", "END", "C method_name.lower", "TRY", "EXCEPT AttributeError", "RETURN", "END", "C on_method", "DEF execute_and_reply", "TRY", "C async_func", "C self._send_reply", "EXCEPT Exception", "C self.on_exception", "END", "END", "R self._executor", "C self._executor.submit"]),
+ [("MetadataProviderServer._handle_request", ["R self.init_expected", "IF _ and (not self.init_expected)", "C RemotingException", "RAISE", "END", "R self.init_expected", "IF not _ and self.init_expected", "C RemotingException", "RAISE", "END", "IF _", "W self.init_expected", "C self._on_mpi", "C self._send_reply", "RETURN", "END", "C method_name.lower", "TRY", "EXCEPT (KeyError, AttributeError)", "RETURN", "END", "C on_method", "DEF execute_and_reply", "TRY", "C async_func", "C self._send_reply", "EXCEPT Exception", "C self.on_exception", "END", "END", "R self._executor", "C self._executor.submit"]),
   ("DataProviderServer._handle_request", ["R self.init_expected", "IF _ and (not self.init_expected)", "C RemotingException", "RAISE", "END", "R self.init_expected", "IF not _ and self.init_expected", "C RemotingException", "RAISE", "END", "IF _", "W self.init_expected", "C self._on_dpi", "C self._send_reply", "ELSE", "IF _ == 'SUB'", "C self._on_sub", "ELSE", "IF _ == 'USB'", "C self._on_usb", "ELSE", "END", "END", "END"])]
 
 /-- which methods assign each piece of shared state (nothing else in the package may). -/
